@@ -151,6 +151,14 @@ pub struct FnSpec {
 /// Parameter names whose alphabetical order differs from their declared order (a bug that sorts or hashes names must show).
 pub const NAME_POOL: [&str; 8] = ["zed", "alpha", "mid", "quux", "beta", "yak", "cee", "kilo"];
 
+/// Names for the fns of a module / the methods of a trait: declared order differs from alphabetical order.
+pub const MEMBER_POOL: [&str; 6] = ["zulu", "bravo", "november", "alfa", "mike", "delta"];
+
+pub fn member_names(t: &mut Tape, n: usize) -> Vec<String> {
+    let perm = t.permutation(MEMBER_POOL.len());
+    (0..n).map(|i| format!("{}{}", MEMBER_POOL[perm[i % MEMBER_POOL.len()]], if i >= MEMBER_POOL.len() { i.to_string() } else { String::new() })).collect()
+}
+
 pub fn param_names(t: &mut Tape, n: usize) -> Vec<String> {
     let perm = t.permutation(NAME_POOL.len());
     (0..n).map(|i| NAME_POOL[perm[i % NAME_POOL.len()]].to_string()).collect()
